@@ -5,8 +5,9 @@ open GV GV.C02 GV.C17
 Line protocol for C17 (see harness/c17.py).  The driver holds one system (design space + disciplines).
 
   reset                                              -> ok
-  ds <name:size:lb:ub> ...                           -> ok        (lb/ub: comma lists of rats)
-  disc <D> <in:size,...|[]> <linear outs|[]> [def.<in>=<rats>] ...   -> ok
+  ds <name:size:lb:ub[:i]> ...                       -> ok        (lb/ub: comma lists of rats; `:i` = integer variable)
+  disc <D> <in:size,...|[]> <linear outs|[]> [def.<in>=<rats>] [sto=d|s|m] ...   -> ok
+        (sto: the discipline hands its Jacobian blocks over dense / sparse built from the values / some of each)
   out <D> <o> const=<rats> [lin.<in>=<rows>] [quad.<in>=<rows>] ...   -> ok   (rows: r;r;..)
   names mdf|idf|dopt                                 -> variable names | E:value
   eval idf <0|1 normalize> f <o1,o2,..> x=<rats> [a=<rat>] [pos=1]     -> v=<rats> j=<rows>
@@ -18,7 +19,12 @@ Line protocol for C17 (see harness/c17.py).  The driver holds one system (design
   mask <all names> <masking names>                   -> indices | E:value
   unmask <all> <masking> <x> <rows> <0|1 full>       -> rows of unmask(mask(x) * (r+1), default -(r+1))
 
-History of `jac` calls on the function objects of one formulation (heap of returned arrays, `JHeap`):
+Any `eval` line may carry `dt=i|f` (dtype of the array in which the caller passes the design point) and
+`typed=1` (the array carries the declared variable types: DOE samples on a mixed integer/float design space):
+the functions are evaluated at `typedVector` of the point.
+
+History of `jac` calls on the function objects of one formulation (heap of returned arrays, `JHeap`; every
+`FunctionFromDiscipline` adapter of IDF keeps its own array, filled block by block by `convertJac`):
   hreset <number of function objects>                -> ok
   eval ... hold=<f>                                  -> (same answer) and the call is executed on the heap by
                                                         function object <f>; the caller keeps the returned array
@@ -43,6 +49,10 @@ def parseDsVar? (s : String) : Option Var :=
     let lb ← parseRatList? lb
     let ub ← parseRatList? ub
     some ⟨n, false, lb.map some, ub.map some, none⟩
+  | [n, _, lb, ub, ty] => do
+    let lb ← parseRatList? lb
+    let ub ← parseRatList? ub
+    some ⟨n, ty == "i", lb.map some, ub.map some, none⟩
   | _ => none
 
 /-- key=value tokens with a given prefix: `pre.<name>=<value>` -> (name, value). -/
@@ -177,10 +187,13 @@ def stepSys (s : Sys) (line : String) : Sys × String :=
     | _, _ => (s, "bad-op")
   | _ => (s, "bad-op")
 
-/-- Driver state: the system, the heap of arrays, the cells the caller holds (in call order). -/
+/-- Driver state: the system, the storage of each discipline's Jacobian blocks, the heap of arrays, the array
+    each adapter keeps (cell table), the cells the caller holds (in call order). -/
 structure DSt where
   sys : Sys
+  sto : List (String × String)
   heap : JHeap
+  bufs : List (Nat × BlockTable)
   callerHeld : List Nat
 
 def keep (st : DSt) (h : JHeap) : DSt :=
@@ -192,8 +205,66 @@ def holdFresh (st : DSt) (m : Option Mat) : DSt :=
   | none => st
   | some m => keep st (st.heap.freshCall m)
 
+/-- One `jac` call of an adapter, as `gJacParts` cuts it: input names, blocks at the masked point, unmasking. -/
+structure AdCall where
+  inputNames : List String
+  jac : String → String → Mat
+  rowsOf : String → Nat
+  outs : List String
+  un : Mat → Option Mat
+  /-- the storage chosen by the discipline for each block -/
+  sp : String → String → Bool
+
+def adCall (sizes : Sizes) (names : List String) (hasInput : String → Bool)
+    (jac : Data → String → String → Mat) (rowsOf : String → Nat) (outs : List String) (x : Vec)
+    (sp : String → String → Bool) : Option AdCall :=
+  let inputNames := names.filter hasInput
+  match maskX sizes inputNames names x with
+  | none => none
+  | some xm =>
+    some ⟨inputNames, jac (adapterInputData sizes inputNames xm), rowsOf, outs,
+          fun m => unmaskRows sizes inputNames names m none, sp⟩
+
+/-- The storage of block `(o, i)`: the producer of `o` decides (`m`: alternately, by position). -/
+def storageOf (st : DSt) (o i : String) : Bool :=
+  match st.sys.producer? o with
+  | none => false
+  | some d =>
+    match st.sto.find? (fun p => p.1 == d.name) with
+    | some p =>
+      if p.2 == "s" then true
+      else if p.2 == "m" then
+        ((d.outs.map (·.name)).idxOf o + (d.ins.map (·.1)).idxOf i) % 2 == 1
+      else false
+    | none => false
+
+def bufOf (st : DSt) (f : Nat) : BlockTable :=
+  match st.bufs.find? (fun p => p.1 == f) with
+  | some p => p.2
+  | none => []
+
+/-- The adapter of function object `f` fills its own array block by block (`convertJac` on the array it kept
+    from its previous call), the array is unmasked into a new array for the caller. -/
+def adapterCall (st : DSt) (f : Nat) (c : AdCall) : Option DSt :=
+  let t := convertJac (bufOf st f) c.outs c.inputNames (fun o i => JBlock.ofMat (c.sp o i) (c.jac o i))
+  match st.heap.ffdJacCall f (t.toArray c.inputNames c.rowsOf c.outs) c.un with
+  | none => none
+  | some h1 => some { st with heap := h1, bufs := (f, t) :: st.bufs.filter (fun p => p.1 != f) }
+
 /-- A `FunctionFromDiscipline` (`neg`: wrapped by `-f` for a positive inequality, a new array). -/
-def holdFfd (st : DSt) (f : Nat) (parts : Option (Mat × (Mat → Option Mat))) (neg : Bool) : DSt :=
+def holdFfd (st : DSt) (f : Nat) (c : Option AdCall) (neg : Bool) : DSt :=
+  match c with
+  | none => st
+  | some c =>
+    match adapterCall st f c with
+    | none => st
+    | some st1 =>
+      let h1 := st1.heap
+      if neg then keep st1 (h1.freshCall (formatJac true (h1.read (h1.ret.getLastD 0)))) else keep st1 h1
+
+/-- A `FunctionFromDiscipline` whose adapter's array is given at once (MDF / DisciplinaryOpt: the blocks come
+    from the coupled-derivative assembly of the MDA, not from the disciplines). -/
+def holdWhole (st : DSt) (f : Nat) (parts : Option (Mat × (Mat → Option Mat))) (neg : Bool) : DSt :=
   match parts with
   | none => st
   | some p =>
@@ -204,13 +275,13 @@ def holdFfd (st : DSt) (f : Nat) (parts : Option (Mat × (Mat → Option Mat))) 
 
 /-- A `ConsistencyConstraint`: `jac` of its coupling function (function object `f`), then `coupl_jac - x_jac`
     (optionally scaled) in a new array. -/
-def holdCons (st : DSt) (f : Nat) (parts : Option (Mat × (Mat → Option Mat))) (final : Option Mat) : DSt :=
-  match parts with
+def holdCons (st : DSt) (f : Nat) (c : Option AdCall) (final : Option Mat) : DSt :=
+  match c with
   | none => st
-  | some p =>
-    match st.heap.ffdJacCall f p.1 p.2 with
+  | some c =>
+    match adapterCall st f c with
     | none => st
-    | some h1 => holdFresh { st with heap := h1 } final
+    | some st1 => holdFresh st1 final
 
 def holdStep (st : DSt) (f : Nat) (toks : List String) : DSt :=
   let s := st.sys
@@ -223,28 +294,28 @@ def holdStep (st : DSt) (f : Nat) (toks : List String) : DSt :=
       if d.isLinear outs then
         holdFresh st ((funJac s.sizes s.ds.names d outs x).map (fun j => if fmt then formatJac pos j else j))
       else
-        holdFfd st f (gJacParts s.sizes s.ds.names d.hasInput (d.jac s.sizes) d.rowsOf outs x) (fmt && pos)
+        holdFfd st f (adCall s.sizes s.ds.names d.hasInput (d.jac s.sizes) d.rowsOf outs x (storageOf st)) (fmt && pos)
     | _, _ => st
   | "eval" :: "idfp" :: _ :: "f" :: outs :: rest =>
     match (kv "x" rest).bind parseRatList? with
     | some x =>
       let (_, pos, fmt) := fmtArgs rest
-      holdFfd st f (gJacParts s.sizes s.ds.names s.parHasInput (s.parJac s.sizes) s.parRowsOf (parseStrList outs) x)
-        (fmt && pos)
+      holdFfd st f (adCall s.sizes s.ds.names s.parHasInput (s.parJac s.sizes) s.parRowsOf (parseStrList outs) x
+        (storageOf st)) (fmt && pos)
     | none => st
   | "eval" :: "idf" :: norm :: "c" :: dn :: rest =>
     match (kv "x" rest).bind parseRatList?, s.discs.find? (fun d => d.name == dn) with
     | some x, some d =>
       let oc := s.outputCouplings d
       if d.isLinear oc then holdFresh st (consJac s (norm == "1") d x)
-      else holdCons st f (gJacParts s.sizes s.ds.names d.hasInput (d.jac s.sizes) d.rowsOf oc x)
+      else holdCons st f (adCall s.sizes s.ds.names d.hasInput (d.jac s.sizes) d.rowsOf oc x (storageOf st))
         (consJacRaw s (norm == "1") d x)
     | _, _ => st
   | "eval" :: "idfp" :: norm :: "c" :: dn :: rest =>
     match (kv "x" rest).bind parseRatList?, s.discs.find? (fun d => d.name == dn) with
     | some x, some d =>
-      holdCons st f (gJacParts s.sizes s.ds.names s.parHasInput (s.parJac s.sizes) s.parRowsOf (s.outputCouplings d) x)
-        (consJacPar s (norm == "1") d x)
+      holdCons st f (adCall s.sizes s.ds.names s.parHasInput (s.parJac s.sizes) s.parRowsOf (s.outputCouplings d) x
+        (storageOf st)) (consJacPar s (norm == "1") d x)
     | _, _ => st
   | "eval" :: form :: outs :: rest =>
     if form != "mdf" && form != "dopt" then st else
@@ -261,24 +332,48 @@ def holdStep (st : DSt) (f : Nat) (toks : List String) : DSt :=
       match mdfView s names (parseStrList outs) x ys w with
       | some _ =>
         let point := namedPoint s.sizes names x ++ ys
-        holdFfd st f (some (mdaJacRows s names (parseStrList outs) point w,
+        holdWhole st f (some (mdaJacRows s names (parseStrList outs) point w,
           fun m => unmaskRows s.sizes names names m none)) (fmt && pos)
       | none => st
     | _, _, _ => st
   | _ => st
 
+/-- `dt=` / `typed=` tokens: the `x=` token is replaced by the numbers the disciplines read (`typedVector`). -/
+def applyDtype (s : Sys) (toks : List String) : List String :=
+  let dt := kv "dt" toks
+  let typed := kv "typed" toks == some "1"
+  let rest := toks.filter (fun t => !t.startsWith "dt=" && !t.startsWith "typed=")
+  if dt.isNone && !typed then rest else
+  let dsOf : DS := match toks with
+    | "eval" :: "mdf" :: _ => s.mdfDS
+    | "eval" :: "dopt" :: _ => s.doptDS
+    | _ => s.ds
+  rest.map (fun t =>
+    if t.startsWith "x=" then
+      match parseRatList? (t.drop 2).toString with
+      | some x => "x=" ++ showRatList (typedVector dsOf.intMask (if dt == some "i" then DType.int else DType.float) typed x)
+      | none => t
+    else t)
+
 def step (st : DSt) (line : String) : DSt × String :=
   match tokens line with
-  | ["hreset", n] => ({ st with heap := JHeap.empty (n.toNat?.getD 0), callerHeld := [] }, "ok")
+  | ["hreset", n] => ({ st with heap := JHeap.empty (n.toNat?.getD 0), bufs := [], callerHeld := [] }, "ok")
   | ["held"] =>
     (st, if st.callerHeld.isEmpty then "[]" else "|".intercalate (st.callerHeld.map (fun c => showMat (st.heap.read c))))
   | toks =>
+    let toks := applyDtype st.sys toks
     let hold := (kv "hold" toks).bind (·.toNat?)
-    let plain := toks.filter (fun t => !t.startsWith "hold=")
+    let plain := toks.filter (fun t => !t.startsWith "hold=" && !t.startsWith "sto=")
     let (s', ans) := stepSys st.sys (" ".intercalate plain)
     let st' := { st with sys := s' }
+    let st' := match toks with
+      | ["reset"] => { st' with sto := [] }
+      | "disc" :: name :: _ => (match kv "sto" toks with
+          | some v => { st' with sto := st'.sto ++ [(name, v)] }
+          | none => st')
+      | _ => st'
     match hold with
     | some f => if ans.startsWith "v=" then (holdStep st' f plain, ans) else (st', ans)
     | none => (st', ans)
 
-def main : IO Unit := driverLoop step ⟨⟨DS.empty, []⟩, JHeap.empty 0, []⟩
+def main : IO Unit := driverLoop step ⟨⟨DS.empty, []⟩, [], JHeap.empty 0, [], []⟩
